@@ -222,6 +222,7 @@ def register(reg, prop="C33"):
 def register_pulser_data(reg, prop):
     """PulserData.__init__: an interaction type the emulators do not implement never yields data."""
     def from_sequence(I, *a, **k):
+        I.ctx.ghost["from_sequence_args"] = (a, dict(k))
         h = SymObj("HamiltonianData", None)
         b = SymObj("BasisData", None)
         b.fields["interaction_type"] = I.ctx.fresh("interaction_type", "str")
@@ -244,8 +245,18 @@ def register_pulser_data(reg, prop):
         ensures=["self.hamiltonian.basis_data.interaction_type in ['ising', 'XY']",
                  "implies(self.hamiltonian.basis_data.interaction_type == 'ising', self.hamiltonian_type == RYDBERG)",
                  "implies(self.hamiltonian.basis_data.interaction_type == 'XY', self.hamiltonian_type == XY)",
-                 "self.dim == self.hamiltonian.basis_data.dim"],
+                 "self.dim == self.hamiltonian.basis_data.dim",
+                 # pulser is asked for exactly the configured number of noise trajectories, for the configured
+                 # modulation setting and the noise model the emulation uses (C34: sum of reps == n_trajectories
+                 # is pulser's contract for THIS argument)
+                 "hd_kw('n_trajectories') is config.n_trajectories",
+                 "hd_kw('with_modulation') is config.with_modulation",
+                 "hd_kw('noise_model') is self.noise_model"],
+        ensures_names=["interaction-type-supported", "ising-is-rydberg", "xy-is-xy", "dim-from-pulser",
+                       "pulser-asked-for-the-configured-number-of-trajectories",
+                       "pulser-asked-with-the-configured-modulation", "pulser-given-the-noise-model-in-use"],
     ))
+    reg.ghost_funcs["hd_kw"] = lambda I, name: I.ctx.ghost["from_sequence_args"][1].get(name)
 
 
 def _monkeypatch_model(I, self):
